@@ -1,28 +1,41 @@
-import GSProofs.Lemmas.RespLifeReach
+import GSProofs.Lemmas.RespLifeAccMgr
 /-!
 # C23 — Reported request state agrees with the work queue when quiescent   (responder side)
 
 Model: `GS.RespLife`.  `PeerState(p)` of the response manager reports the table entries of `p`
 (`State.table`) next to the peer's task-queue topics (`PeerQ.pending`, `PeerQ.active`).
 
--- FULL STATEMENT (C23.agree) — STATED, NOT PROVED in Lean.  It is checked on every run by the
--- correspondence stream `peerstate` (model and real code agree on PeerState at every barrier) and by the
--- independent oracle (Diagnostics() empty, state/queue agreement, final Stats):
---   theorem agree : ReachableFresh c s → quiescent s = true → agrees s = true
--- FULL STATEMENT (C23.final), likewise:
---   theorem final : ReachableFresh c s → quiescent s = true → s.table = [] →
---     (∀ q ∈ s.queues, q.pending = [] ∧ q.active = []) ∧ (∀ m ∈ s.mqs, idle m → m.allocated = 0)
--- The invariant needed couples request states, task-queue sets, worker phases, mailbox contents and
--- the terminal statuses queued in message builders; only its registry part (`PInv`) is proved so far.
+What IS proved here (all for the responder model `GS.RespLife`):
+* `agree_partial` — the state part of C23.agree as an INVARIANT: in every quiescent state reachable with
+  `new` requests that carry drained ids (`ReachableDrained`), every reported request agrees with its
+  peer's task queue (Queued ↔ pending ∧ ¬active, Running ↔ active ∧ ¬pending, Paused / CompletingSend ↔
+  neither).  Proof: the lifecycle invariant `LInv` (Lemmas/RespLifeInv.lean) over the abstraction `acc`
+  (Lemmas/RespLifeAcc.lean), preserved by every step (Lemmas/RespLifeAccMgr.lean).
+  Hypothesis `Drained s id` for a `new` request: no response with this id, no topic with it in any peer's
+  task queue, no busy worker with it, no other `new` request with it waiting.  This is the complement of
+  the known finding `dup-live-id-queue` (`agree_counterexample_dup` below shows agreement fails without
+  it); it is stronger than "not in the table": an id whose response was cancelled while its task was
+  still running must not be re-used before that task has been returned (real code handles that case
+  since /repo 0bfe189; the harness exercises it, the proof does not cover it).
+* `final_partial` — part of C23.final: when every task worker is done no peer has an active topic, and a
+  pending topic whose id has a response belongs to a Queued response of that peer.
+* `drained_hypothesis_satisfiable` — the hypothesis is not vacuous: a full lifecycle followed by re-use
+  of a retired id is a drained run ending quiescent.
+* `release_fits` — a `release` that leaves the ghost flag `State.underflow` clear subtracted exactly
+  (no truncation); the correspondence driver prints a set flag as a forced divergence, so each run
+  checks that release amounts fit.  That the flag is never set is NOT proved.
+* `reported_states_well_defined`: one table entry per id, every reported request protected.
+* `agree_counterexample_dup`: without the hypothesis agreement fails in a quiescent state.
 
-What IS proved here:
-* `reported_states_well_defined`: with fresh ids the table has one entry per id, so the reported
-  RequestStates map is well defined and every reported request is protected (registry invariant);
-* `agree_counterexample_dup`: without fresh ids agreement fails in a quiescent state — a new request
-  re-using the id of a running one is reported Queued while its topic is active and not pending
-  (known finding `dup-live-id-queue`, replayed by corpus/C23);
-* `agree_on_lifecycle` / `final_on_lifecycle`: the executable predicates evaluated on concrete
-  lifecycles (these are tests of the definitions, labelled as such, not proofs of the property).
+NOT proved (stated here, checked on every run by the correspondence stream `peerstate` and by the
+independent oracle — Diagnostics() empty, state/queue agreement, final Stats):
+--   theorem agree_orphans : ReachableDrained c s → quiescent s = true → noOrphanTopics s = true
+--     (every pending / active topic has a response; needs the coupling between the terminal statuses
+--      queued in message builders, Terminate messages and CompletingSend responses)
+--   theorem final : ReachableDrained c s → quiescent s = true → s.table = [] →
+--     (∀ q ∈ s.queues, q.pending = [] ∧ q.active = []) ∧ (∀ m ∈ s.mqs, idle m → m.allocated = 0)
+--     (proved: active = [] once all workers are done; not proved: pending = [], allocated = 0)
+`agree_on_lifecycle` / `final_on_lifecycle` are TESTS of the definitions on one concrete lifecycle.
 -/
 namespace GS.C23
 open GS.RespLife
@@ -38,7 +51,7 @@ def quiescent (s : State) : Bool :=
 
 /-- Queued ↔ pending, Running ↔ active, Paused / CompletingSend in neither; every queue topic has a
     table entry of that peer -/
-def agrees (s : State) : Bool :=
+def agreesStates (s : State) : Bool :=
   s.table.all (fun r =>
     let q := getQ s r.peer
     let pend := q.pending.any (·.1 == r.id)
@@ -46,10 +59,14 @@ def agrees (s : State) : Bool :=
     match r.state with
     | .queued => pend && !act
     | .running => act && !pend
-    | _ => !pend && !act) &&
+    | _ => !pend && !act)
+
+def noOrphanTopics (s : State) : Bool :=
   s.queues.all (fun q =>
     q.pending.all (fun t => s.table.any (fun r => r.id == t.1 && r.peer == q.peer)) &&
     q.active.all (fun i => s.table.any (fun r => r.id == i && r.peer == q.peer)))
+
+def agrees (s : State) : Bool := agreesStates s && noOrphanTopics s
 
 /-- with fresh ids the table holds at most one entry per request id (so `RequestStates`, a map keyed
     by id, reports every entry), and every reported request holds its connection protection -/
@@ -59,6 +76,155 @@ theorem reported_states_well_defined {c : Cfg} {s : State} (h : ReachableFresh c
   refine ⟨by simpa [pi, keys, List.map_map, Function.comp_def] using hinv.nodupIds, ?_⟩
   intro r hr
   exact (hinv.protIff (r.peer, r.id)).2 (Or.inl (List.mem_map.2 ⟨r, hr, rfl⟩))
+
+-- ------------------------------------------------------------------ C23.agree (state part), proved
+theorem fresh_of_drained {s : State} {a : Action} (h : DrainStep s a) : FreshStep s a := by
+  cases a with
+  | recv p r =>
+    cases r with
+    | new id cfg =>
+      obtain ⟨⟨h1, _, _⟩, h2, h3⟩ := h
+      refine ⟨?_, ?_, ?_⟩
+      · intro hk
+        obtain ⟨r, hr, hrk⟩ := List.mem_map.1 hk
+        have hid : r.id = id := congrArg Prod.snd hrk
+        have : entOf s id ≠ none := by
+          unfold entOf lookup
+          cases hf : s.table.find? (·.id == id) with
+          | none =>
+            have := List.find?_eq_none.1 hf r hr
+            simp [hid] at this
+          | some r' => simp
+        exact this h1
+      · intro hk
+        exact h2 (List.mem_map.2 ⟨(p, id), hk, rfl⟩)
+      · intro hk
+        exact h3 (p, id) hk rfl
+    | _ => trivial
+  | _ => trivial
+
+theorem reachableFresh_of_drained {c : Cfg} {s : State} (h : ReachableDrained c s) : ReachableFresh c s := by
+  induction h with
+  | init => exact ReachableFresh.init
+  | step _ hd hs ih => exact ReachableFresh.step ih (fresh_of_drained hd) hs
+
+theorem find_of_mem_nodup (l : List Resp) (hn : (l.map (·.id)).Nodup) {r : Resp} (hr : r ∈ l) :
+    l.find? (·.id == r.id) = some r := by
+  induction l with
+  | nil => cases hr
+  | cons x xs ih =>
+    rw [List.map_cons, List.nodup_cons] at hn
+    rcases List.mem_cons.1 hr with rfl | hr'
+    · simp
+    · have hne : x.id ≠ r.id := by
+        intro e
+        exact hn.1 (e ▸ List.mem_map.2 ⟨r, hr', rfl⟩)
+      rw [List.find?_cons]
+      have : (x.id == r.id) = false := by simpa using hne
+      rw [this]
+      exact ih hn.2 hr'
+
+theorem lookup_of_mem {s : State} (hn : (s.table.map (·.id)).Nodup) {r : Resp} (hr : r ∈ s.table) :
+    lookup s r.id = some r := find_of_mem_nodup s.table hn hr
+
+/-- what `quiescent` means for the lifecycle abstraction: no StartTask / FinishTask in the mailbox, the
+    manager not parked -/
+theorem quiescent_acc {s : State} (hq : quiescent s = true) :
+    (acc s).starts = [] ∧ (acc s).punp = none := by
+  simp only [quiescent, Bool.and_eq_true, List.isEmpty_iff, Option.isNone_iff_eq_none] at hq
+  obtain ⟨⟨⟨hm, hp⟩, _⟩, _⟩ := hq
+  exact ⟨by simp [acc, hm, starts], punp_none hp⟩
+
+/-- **C23.agree_partial** (state part of `agree`, PROVED).  In every quiescent state that is reachable
+    with `new` requests carrying drained ids (`Drained`: no response, no task-queue topic, no busy
+    worker, no waiting `new` request with this id — the complement of the known finding
+    `dup-live-id-queue`), every reported request agrees with the task queue of its peer:
+    Queued ↔ topic pending and not active, Running ↔ active and not pending, Paused / CompletingSend ↔
+    neither. -/
+theorem agree_partial {c : Cfg} {s : State} (h : ReachableDrained c s) (hq : quiescent s = true) :
+    agreesStates s = true := by
+  have hi := (linv_reachable h).1
+  have hn := (pinv_reachable (reachableFresh_of_drained h)).nodupIds
+  have hn' : (s.table.map (·.id)).Nodup := by
+    simpa [pi, keys, List.map_map, Function.comp_def] using hn
+  obtain ⟨hs0, hu0⟩ := quiescent_acc hq
+  have hnows : ∀ i, (acc s).kindAt i ≠ some .waitStart := by
+    intro i hk
+    have := (hi.startsIff i).2 hk
+    rw [hs0] at this; cases this
+  unfold agreesStates
+  rw [List.all_eq_true]
+  intro r hr
+  have he : (acc s).ent r.id = some (r.peer, r.state, r.aux.task) := entOf_lookup (lookup_of_mem hn' hr)
+  have hE := hi.entry r.id r.peer r.state r.aux.task he
+  have hpend : (getQ s r.peer).pending.any (·.1 == r.id) = true ↔ r.id ∈ (acc s).pend r.peer := by
+    show _ ↔ r.id ∈ (getQ s r.peer).pending.map (·.1)
+    simp [List.any_eq_true, List.mem_map]
+  have hact : (getQ s r.peer).active.contains r.id = true ↔ r.id ∈ (acc s).act r.peer := by
+    show _ ↔ r.id ∈ (getQ s r.peer).active
+    simp
+  have hactl := hi.actLive r.peer r.id
+  simp only
+  cases hst : r.state with
+  | queued =>
+    rw [hst] at hE
+    simp only [Bool.and_eq_true, Bool.not_eq_true', ← Bool.not_eq_true, hpend, hact]
+    rcases hE with ⟨h1, h2⟩ | ⟨_, i, _, h3⟩ | ⟨h1, _⟩
+    · exact ⟨h1, fun hm => by obtain ⟨i, hli⟩ := hactl.1 hm; exact h2 i hli⟩
+    · exact absurd h3 (hnows i)
+    · rw [hu0] at h1; cases h1
+  | running =>
+    rw [hst] at hE
+    simp only [Bool.and_eq_true, Bool.not_eq_true', ← Bool.not_eq_true, hpend, hact]
+    obtain ⟨h1, i, h2, _⟩ := hE
+    exact ⟨hactl.2 ⟨i, h2⟩, h1⟩
+  | paused =>
+    rw [hst] at hE
+    simp only [Bool.and_eq_true, Bool.not_eq_true', ← Bool.not_eq_true, hpend, hact]
+    exact ⟨hE.1, fun hm => by obtain ⟨i, hli⟩ := hactl.1 hm; exact hE.2 i hli⟩
+  | completing =>
+    rw [hst] at hE
+    simp only [Bool.and_eq_true, Bool.not_eq_true', ← Bool.not_eq_true, hpend, hact]
+    exact ⟨hE.1, fun hm => by obtain ⟨i, hli⟩ := hactl.1 hm; exact hnows i (hE.2 i hli)⟩
+
+/-- **C23.final_partial** (PROVED part of `final`).  In a reachable state (drained ids) in which every
+    task worker is done, no peer has an active topic; and a pending topic whose id has a response
+    belongs to a Queued response of that very peer.  NOT proved: that a pending topic always has a
+    response (needs the coupling between Terminate messages and CompletingSend), and that the
+    allocator is back to zero. -/
+theorem final_partial {c : Cfg} {s : State} (h : ReachableDrained c s)
+    (hw : ∀ w ∈ s.workers, w.phase = .done) :
+    (∀ p, (getQ s p).active = []) ∧
+    (∀ p id r, id ∈ (getQ s p).pending.map (·.1) → lookup s id = some r → r.peer = p ∧ r.state = .queued) := by
+  have hi := (linv_reachable h).1
+  have hnl : ∀ i p id, ¬ (acc s).liveW i p id := by
+    rintro i p id ⟨k, hk, hkd⟩
+    have : (wcore s)[i]? = some (p, id, k) := hk
+    simp only [wcore, List.getElem?_map, Option.map_eq_some_iff] at this
+    obtain ⟨w, hwi, hwe⟩ := this
+    have hd := hw w (List.mem_of_getElem? hwi)
+    simp only [Prod.mk.injEq] at hwe
+    rw [hd] at hwe
+    exact hkd hwe.2.2.symm
+  constructor
+  · intro p
+    cases ha : (getQ s p).active with
+    | nil => rfl
+    | cons a as =>
+      have hm : a ∈ (acc s).act p := by show a ∈ (getQ s p).active; rw [ha]; simp
+      obtain ⟨i, hli⟩ := (hi.actLive p a).1 hm
+      exact absurd hli (hnl i p a)
+  · intro p id r hm hl
+    have he := entOf_lookup hl
+    have hp : r.peer = p := hi.ownP p id hm _ he
+    refine ⟨hp, ?_⟩
+    have hE := hi.entry id r.peer r.state r.aux.task he
+    rw [hp] at hE
+    cases hst : r.state with
+    | queued => rfl
+    | running => rw [hst] at hE; exact absurd hm hE.1
+    | paused => rw [hst] at hE; exact absurd hm hE.1
+    | completing => rw [hst] at hE; exact absurd hm hE.1
 
 def cfgA (n : Nat) : ReqCfg := { pri := 1, hook := ⟨.accept, false⟩, n, miss := none, bh := [] }
 
@@ -72,6 +238,32 @@ def dupRunningScript : List Action :=
 theorem agree_counterexample_dup :
     ∃ s, Reachable {} s ∧ quiescent s = true ∧ agrees s = false :=
   ⟨run (init {}) dupRunningScript, reachable_run Reachable.init _, by decide, by decide⟩
+
+-- ------------------------------------------------------------------ release amounts
+theorem underflow_grantTo (s : State) (party : Party) : (grantTo s party).underflow = s.underflow := by
+  cases party <;> rfl
+
+theorem underflow_grantLoop (fuel : Nat) (s : State) (p : Peer) : (grantLoop fuel s p).underflow = s.underflow := by
+  induction fuel generalizing s with
+  | zero => rfl
+  | succ n ih =>
+    unfold grantLoop
+    split
+    · rfl
+    · split
+      · rw [ih, underflow_grantTo]; rfl
+      · rfl
+
+/-- **release_fits**: a `release` after which the ghost flag is clear gave back no more than the peer
+    had allocated — the `Nat` subtraction did not truncate (and the flag was clear before). -/
+theorem release_fits (s : State) (p : Peer) (n : Nat) (h : (release s p n).underflow = false) :
+    n ≤ (getMQ s p).allocated ∧ (getMQ s p).allocated - n + n = (getMQ s p).allocated ∧ s.underflow = false := by
+  unfold release at h
+  simp only at h
+  rw [underflow_grantLoop] at h
+  have h' : (s.underflow || decide ((getMQ s p).allocated < n)) = false := h
+  simp only [Bool.or_eq_false_iff, decide_eq_false_iff_not, Nat.not_lt] at h'
+  exact ⟨h'.2, Nat.sub_add_cancel h'.2, h'.1⟩
 
 /-- a full lifecycle with pause, unpause, cancel of a second request, acknowledgements -/
 def lifecycle : List Action :=
@@ -97,5 +289,15 @@ theorem final_on_lifecycle :
     let s := run (init {}) lifecycle
     quiescent s = true ∧ s.table = [] ∧ s.queues.all (fun q => q.pending.isEmpty && q.active.isEmpty) = true ∧
       s.mqs.all (fun m => m.allocated == 0) = true := by decide
+
+/-- the lifecycle, then the retired id 0 is used again -/
+def lifecycleReuse : List Action := lifecycle ++ [.recv 0 (.new 0 (cfgA 1)), .mgr]
+
+/-- the hypothesis of `agree_partial` is satisfiable by non-trivial runs (including re-use of an id
+    after retirement), and no release in this run truncates -/
+theorem drained_hypothesis_satisfiable :
+    ReachableDrained {} (run (init {}) lifecycleReuse) ∧ quiescent (run (init {}) lifecycleReuse) = true ∧
+      (run (init {}) lifecycleReuse).table ≠ [] ∧ (run (init {}) lifecycleReuse).underflow = false :=
+  ⟨reachableDrained_run ReachableDrained.init _ (by decide), by decide, by decide, by decide⟩
 
 end GS.C23
